@@ -135,8 +135,28 @@ def namedexpr_namespace(node):
 def add_parent_to_namedexpr(node):
     assert isinstance(node, ast.NamedExpr)
 
-    add_parent(node.target, namespace=namedexpr_namespace(node.namespace))
+    # The target is bound in the namespace given by binding_namespace(), but it is still
+    # mentioned in (and must not clash with names of) any comprehension namespaces it is inside
+    add_parent(node.target, namespace=node.namespace)
     add_parent(node.value, namespace=node.namespace)
+
+
+def binding_namespace(node):
+    """
+    Get the namespace a Name node binds its name in
+
+    This is the namespace of the node, except for NamedExpr targets which are bound outside of any comprehensions.
+    """
+
+    try:
+        parent = get_parent(node)
+    except ValueError:
+        return node.namespace
+
+    if isinstance(parent, ast.NamedExpr) and parent.target is node:
+        return namedexpr_namespace(node.namespace)
+
+    return node.namespace
 
 def add_parent(node, namespace=None):
     """
